@@ -75,7 +75,7 @@ def run(v, tier, replay):
             p = progs.get((e["seed"], e["p"]), {})
             ctx = "A=[%s]%s B=[%s] loss=%s timeout=%sms" % (p.get("a"), "+[" + p["a2"] + "]" if p.get("a2") else "", p.get("b"), e["loss"], e["tmo"])
             if e["op"] == "wait" and e["ret"] == "no":
-                sig = "WaitForClose pending after 12 s (%s; own muxer stopped: %s; peer muxer stopped: %s; data timeout %s ms) | %s" % ("network loses frames: " + e["loss"] if e["loss"] != "none" else "faithful network", e.get("ownstop"), e.get("peerstop"), e["tmo"], ctx)
+                sig = "WaitForClose pending after 12 s in state %s (%s; own muxer stopped: %s; peer muxer stopped: %s; data timeout %s ms) | %s" % (e.get("state"), "network loses frames: " + e["loss"] if e["loss"] != "none" else "faithful network", e.get("ownstop"), e.get("peerstop"), e["tmo"], ctx)
             elif e["op"] in ("stop", "finalstop") and e["ret"] == "yes" and e.get("tclosed") == "no":
                 sig = "Stop returned to a caller on end %s before the shutdown had completed (transport still open) | %s" % (e["end"], ctx)
             elif e["op"] == "postclose":
